@@ -503,6 +503,15 @@ def _t_kexinit(rng, ctx):
     return [p], {'kexinit': 'bogus lists'}
 
 
+def _t_srv_silent(rng, ctx):
+    """The server never answers the CHANNEL_OPEN: the application gives up
+       (timeout / cancel) and the connection ends afterwards"""
+
+    return [('never_confirm', rng.choice(['server_close', 'client_close',
+                                          'server_abort']))], \
+        {'silent_open': True}
+
+
 # hostile *server* messages for the asyncssh client
 def _t_srv_confirm(rng, ctx):
     w = rng.choice([0, 1, 0xffffffff, 2097152])
@@ -541,6 +550,7 @@ PEER_TEMPLATES = {
     'kexinit': ('server', _t_kexinit),
     'srv_confirm_extreme': ('client', _t_srv_confirm),
     'srv_kbdint_prompts': ('client', _t_srv_kbdint),
+    'srv_silent_open': ('client', _t_srv_silent),
     'srv_banner': ('client', _t_srv_banner),
     'srv_transport': ('client', _t_transport),
     'srv_global': ('client', _t_global),
@@ -693,6 +703,10 @@ def _run_peer(case, mon, viol, info):
                     r = R.Reader(p, 1)
                     r.str()
                     cid = r.u32()
+                    if isinstance(first, tuple) and \
+                            first[0] == 'never_confirm':
+                        mon['peer_messages'] += 1
+                        return          # hostile silence
                     if isinstance(first, tuple) and first[0] == 'confirm':
                         peer.send(bytes([R.MSG_CHANNEL_OPEN_CONFIRMATION]) +
                                   u32(cid) + u32(3) + u32(first[1]) +
@@ -731,6 +745,16 @@ def _run_peer(case, mon, viol, info):
                             password='pw',
                             client_factory=lambda: cowner)
                         result['conn'] = conn
+                        if info.get('silent_open'):
+                            try:
+                                await asyncio.wait_for(conn.run('x'), 0.5)
+                            except asyncio.TimeoutError:
+                                result['gave_up'] = True
+                            if msgs[0][1] == 'client_close':
+                                conn.close()
+                                await asyncio.wait_for(conn.wait_closed(),
+                                                       60)
+                            return
                         res = await conn.run('x', input='hello' * 50)
                         result['run'] = res
 
@@ -740,7 +764,10 @@ def _run_peer(case, mon, viol, info):
                 finally:
                     meter.disarm()
                     meter.uninstall()
-                peer.close()
+                if info.get('silent_open') and msgs[0][1] == 'server_abort':
+                    env.wire.links[-1].cut('both')
+                else:
+                    peer.close()
                 await env.settle()
                 if not ct.done():
                     viol.append({'mechanism': 'client_call_hangs',
